@@ -170,6 +170,14 @@ class EdgeView:
         self.g, self.u, self.v = g, u, v
 
 
+class ContractionView:
+    """G.nodes[k]['contraction'] (see heap.NODE_SCHEMAS): [removed] -> ContractionEntry -> ['fragid' | 'mapping']."""
+
+    def __init__(self, val, removed=None):
+        self.val = val
+        self.removed = removed
+
+
 class AttrRec:
     """A detached attribute dict (result of deepcopy(G.nodes[n]) or of **kwargs construction)."""
 
@@ -853,7 +861,12 @@ class FunctionRun:
                 for h in (spec.hints if spec else []):
                     self.spec_expr(h, x, self.entry)      # seeds ground instances of opaque spec functions
                 for j, lm in enumerate(spec.lemmas if spec else []):
-                    goal = self.spec_bool(lm, x, self.entry)
+                    try:
+                        goal = self.spec_bool(lm, x, self.entry)
+                    except Unsupported as e:
+                        if 'unknown name' in str(e):
+                            continue          # the lemma talks about a local this path never bound (e.g. an early `continue`)
+                        raise
                     self.oblige(x, 'lemma', goal, s, 'L%d.lemma%d' % (k, j), detail=lm)
                     x.assume(goal)
                 x.env[ghost] = Val(TInt, i + 1)
